@@ -91,6 +91,8 @@ func isAEADCall(ins ssa.Instruction, m string) bool {
 }
 
 func c12(c *an.Check) {
+	noUseAfterScrub(c, []*ssa.Function{c.P.Func("peer", "", "EncryptToEd25519"), c.P.Func("peer", "", "DecryptWithEd25519")}, map[string]int{"Decode": 0})
+	ed25519PrivateKeyDecodeGates(c)
 	p := c.P
 	enc := p.Func("peer", "", "EncryptToEd25519")
 	dec := p.Func("peer", "", "DecryptWithEd25519")
@@ -274,6 +276,7 @@ func c12(c *an.Check) {
 	}
 	// ---- PANIC
 	peerEncryptTotality(c, "peer public-key encryption totality")
+	decryptInputUntouched(c)
 	// NILDEREF: (pointer, error) results — curve points, ECDH keys, ciphers — are dereferenced only behind err == nil
 	{
 		fns := []*ssa.Function{enc, dec, p.Func("peer", "", "EncryptToPubKey"), p.Func("peer", "", "DecryptWithPrivKey")}
@@ -453,4 +456,56 @@ func peerEncryptTotality(c *an.Check, construct string) {
 			"util/extra25519.PrivateKeyToCurve25519: bounds digest[31]":      "digest is a SHA-512 sum (64 bytes)",
 		}})
 	}
+}
+
+
+// decryptInputUntouched: DecryptWithEd25519 never writes through its ciphertext parameter (no store, copy, in-place
+// cipher call or scrub whose destination aliases it): callers keep the ciphertext (an envelope's grant, a queued signal)
+// and decrypt it again later.
+func decryptInputUntouched(c *an.Check) {
+	p := c.P
+	dec := p.Func("peer", "", "DecryptWithEd25519")
+	if dec == nil {
+		c.Undecided("OWNERSHIP", "peer.DecryptWithEd25519 leaves its input untouched", nil, "unresolved anchor")
+		return
+	}
+	aliasesInput := func(v ssa.Value) bool {
+		for r := range an.AliasRoots(v) {
+			if pr, ok := r.(*ssa.Parameter); ok && an.IsParam(pr, 2) {
+				return true
+			}
+		}
+		return false
+	}
+	n, bad := 0, ""
+	for _, g := range an.WithClosures(dec) {
+		for _, b := range g.Blocks {
+			for _, ins := range b.Instrs {
+				switch x := ins.(type) {
+				case *ssa.Store:
+					n++
+					if aliasesInput(x.Addr) {
+						bad = fmt.Sprintf("a store at %s writes into the caller's ciphertext", p.Pos(x.Pos()))
+					}
+				case *ssa.Call, *ssa.Defer:
+					cc := x.(ssa.CallInstruction).Common()
+					var dst []ssa.Value
+					if bi, ok := cc.Value.(*ssa.Builtin); ok && bi.Name() == "copy" {
+						dst = append(dst, cc.Args[0])
+					} else if cc.IsInvoke() && (cc.Method.Name() == "Decrypt" || cc.Method.Name() == "Encrypt" || cc.Method.Name() == "XORKeyStream") {
+						dst = append(dst, cc.Args[0])
+					} else if fo := an.CallObj(cc); fo != nil && fo.Name() == "Scrub" && len(cc.Args) > 0 {
+						dst = append(dst, cc.Args[0])
+					}
+					for _, d := range dst {
+						n++
+						if aliasesInput(d) {
+							bad = fmt.Sprintf("the call at %s writes into (or wipes) storage that aliases the caller's ciphertext: a second decryption of the same ciphertext fails", p.Pos(ins.Pos()))
+						}
+					}
+				}
+			}
+		}
+	}
+	c.Require(bad == "" && n >= 5, "OWNERSHIP", "peer.DecryptWithEd25519 leaves the caller's ciphertext untouched", dec, "", n, "no store / copy / in-place cipher call / scrub has a destination aliasing the ciphertext parameter", bad)
 }
